@@ -661,6 +661,37 @@ func C19(p *ir.Program, r *report.R) {
 		r.Check("K11", "db.cpDecr/underflow-is-nil", p.Pos(cd.Pos()), nNil >= 1 && nOther == 1, fmt.Sprintf("all-zero input returns nil (%d nil returns, %d others)", nNil, nOther))
 	}
 
+	// ---- cpIncr: the exclusive upper neighbour of a prefix, nil on overflow ---------------------------------------------
+	// The callers hand cpIncr(prefix) to the backend as the END of the view: nil means "no upper bound". For a
+	// prefix of 0xFF bytes only there is no larger key of that length: nil, never 00..00 (an empty range).
+	{
+		ci := p.Func("libs/db", "cpIncr")
+		nNil, nOther := 0, 0
+		for _, rt := range ir.Returns(ci) {
+			if ir.AbstractResult(rt.Results[0]) == "nil" {
+				nNil++
+				continue
+			}
+			nOther++
+			r.Check("K11", "db.cpIncr/non-nil-only-after-an-increment", p.InstrPos(rt.Instr), ir.HasFact(ir.FactsAt(rt.Instr), "lt(*[*],255)"), "the incremented copy is returned under ret[i] < 0xFF")
+		}
+		r.Check("K11", "db.cpIncr/overflow-is-nil", p.Pos(ci.Pos()), nNil >= 1 && nOther == 1, fmt.Sprintf("all-0xFF (and empty) input returns nil (%d nil returns, %d others)", nNil, nOther))
+	}
+
+	// ---- a closed iterator is not valid ------------------------------------------------------------------------------------
+	// prefixIterator ends an iteration by closing its source and asking the source (see above): the in-memory
+	// iterator becomes invalid on Close by dropping its key list.
+	{
+		cl := p.Func("libs/db", "memDBIterator.Close")
+		okC := false
+		for _, st := range p.Stores(p.Field("libs/db", "memDBIterator.keys")) {
+			if st.Fn == cl && ir.Render(st.Val) == "nil" {
+				okC = true
+			}
+		}
+		r.Check("K5", "db.(*memDBIterator).Close/invalidates", p.Pos(cl.Pos()), okC, "Close sets keys = nil, so Valid() is false afterwards (as for the backends that release a native iterator)")
+	}
+
 	// ---- a batch owns what it queues ------------------------------------------------------------------------
 	// Between Set/Delete and Write the caller may reuse its key (and value) buffer: every batch either
 	// copies the bytes itself or hands them to a backend call that does (goleveldb Batch.Put/Delete,
